@@ -174,13 +174,12 @@ type svcHarness struct {
 	parent  context.Context
 	pcancel context.CancelFunc
 
-	fnGate   map[string]chan string
-	inGate   string
-	fnlog    []string
-	sctx     string
-	sarg     string
-	iters    int
-	nextIter string
+	fnGate map[string]chan string
+	inGate string
+	fnlog  []string
+	sctx   string
+	sarg   string
+	iters  int
 
 	starts []string
 
@@ -217,9 +216,9 @@ func has(set []string, x string) bool {
 }
 
 func newSvcHarness(mode string, present []string, nc, nl int, wrun, wterm []int) *svcHarness {
-	h := &svcHarness{mode: mode, nc: nc, sctx: "na", sarg: "na", nextIter: "none"}
+	h := &svcHarness{mode: mode, nc: nc, sctx: "na", sarg: "na"}
 	h.parent, h.pcancel = context.WithCancel(context.Background())
-	h.fnGate = map[string]chan string{"start": make(chan string), "run": make(chan string), "stop": make(chan string)}
+	h.fnGate = map[string]chan string{"start": make(chan string), "run": make(chan string), "stop": make(chan string), "iter": make(chan string)}
 	var startFn services.StartingFn
 	var runFn services.RunningFn
 	var stopFn services.StoppingFn
@@ -259,9 +258,13 @@ func newSvcHarness(mode string, present []string, nc, nl int, wrun, wterm []int)
 	case "idle":
 		h.svc = services.NewIdleService(startFn, stopFn)
 	case "timer":
+		// the REAL run loop of NewTimerService under the bubble clock; its iteration function is a gate
 		h.svc = services.NewTimerService(time.Second, startFn, func(ctx context.Context) error {
 			h.iters++
-			return errOf(h.nextIter)
+			h.inGate = "iter"
+			e := <-h.fnGate["iter"]
+			h.inGate = "none"
+			return errOf(e)
 		}, stopFn)
 	default:
 		h.svc = services.NewBasicService(startFn, runFn, stopFn)
@@ -338,16 +341,12 @@ func (h *svcHarness) apply(s step) error {
 	case "StartRet":
 		return sendTo(h.fnGate["start"], s.Arg, "start function")
 	case "RunRet":
-		if h.mode == "timer" {
-			h.nextIter = s.Arg
-			time.Sleep(time.Second)
-		} else {
-			return sendTo(h.fnGate["run"], s.Arg, "running function")
-		}
+		return sendTo(h.fnGate["run"], s.Arg, "running function")
+	case "IterRet":
+		return sendTo(h.fnGate["iter"], s.Arg, "iteration function")
 	case "StopRet":
 		return sendTo(h.fnGate["stop"], s.Arg, "stopping function")
-	case "Tick":
-		h.nextIter = "none"
+	case "Tick": // exactly one tick of the service's ticker: all sleeps of a replay are one interval long
 		time.Sleep(time.Second)
 	case "StopCall":
 		h.stopAsync(s.idx() - 1)
@@ -469,9 +468,6 @@ func (h *svcHarness) cleanup() string {
 		defer func() { _ = recover() }()
 		h.svc.StopAsync()
 	}()
-	if h.mode == "timer" {
-		time.Sleep(2 * time.Second)
-	}
 	synctest.Wait()
 	if st := h.svc.State(); st != services.Terminated && st != services.Failed {
 		return "service not terminal after cleanup: " + st.String()
@@ -494,9 +490,6 @@ func normalise(want obs, got *obs, mode string) obs {
 			}
 		}
 		want.Fns = fns
-		if want.Gate == "run" {
-			want.Gate = "none"
-		}
 	}
 	return want
 }
